@@ -114,8 +114,8 @@ class ObsExact(hooks.Observer):
             if name == "space" and rotated:
                 s = sig + ":after_rebalancing_rotation"
                 mon = monitor + "_after_rotation"
-            elif name == "space" and self.cfg.get("version") == 2 and self.cfg["lmin"] > 1 and self.cfg["lmax"] - self.cfg["lmin"] > 1:
-                s = sig + ":version2_lmin_gt1_leveldiff_gt1"
+            elif name == "space" and self.cfg.get("version") == 2 and self.cfg["d"] >= 2 and self.cfg["lmax"] - self.cfg["lmin"] >= 2:
+                s = sig + ":version2_leveldiff_ge2"
             tol = (1e-12 + 4e-16 * self.cond) * nsch * self.vol * np.asarray(scale_w)
             self.res.close(mon, got[idx], self.exact[idx], tol, s,
                            "%s (%s): combined integral of a function of the initially exact space (%s) is no longer exact" % (where, self.strategy, name),
@@ -170,8 +170,8 @@ def check_interp(res, c, f, groups, cfg, rng, strategy, rotations, monitor_prefi
         if name == "space" and rotations > 0:
             s += ":after_rebalancing_rotation"
             mon += "_after_rotation"
-        elif name == "space" and cfg.get("version") == 2 and cfg["lmin"] > 1 and cfg["lmax"] - cfg["lmin"] > 1:
-            s += ":version2_lmin_gt1_leveldiff_gt1"
+        elif name == "space" and cfg.get("version") == 2 and cfg["d"] >= 2 and cfg["lmax"] - cfg["lmin"] >= 2:
+            s += ":version2_leveldiff_ge2"
         res.close(mon, vals[:, idx], exp[:, idx], itol * nsch * np.asarray(scale_w)[None, :] * 4, s,
                   "%s: combined interpolant is no longer exact for functions of the initially exact space (%s)" % (strategy, name),
                   {"cfg": cfg, "rotations": rotations})
